@@ -153,8 +153,11 @@ def decideHeader (i : HIn) : HOut :=
   let left := if doDrain then (if tooLarge then i.rq.bodyLeft - n else 0) else i.rq.bodyLeft
   -- 304 / sniffing / Date
   let is304 := i.status == 304
-  let h2 := if is304 then ((h1.del "Content-Type").del "Content-Length").del "Transfer-Encoding" else h1
-  let setCT := if !is304 && !h2.has "Content-Type" then sniffedType else ""
+  -- 1xx is treated like 304 for the entity headers and like 204 for the framing choice (repair bb8afff)
+  let is1xx := 100 ≤ i.status && i.status ≤ 199
+  let noEntity := is304 || is1xx
+  let h2 := if noEntity then ((h1.del "Content-Type").del "Content-Length").del "Transfer-Encoding" else h1
+  let setCT := if !noEntity && !h2.has "Content-Type" then sniffedType else ""
   let setDate := !h2.has "Date"
   let te := h2.get "Transfer-Encoding"
   let hasTE := te != ""
@@ -163,8 +166,9 @@ def decideHeader (i : HIn) : HOut :=
   let hasCL2 := hasCL && !clash
   -- framing decision
   let bodyless := isHEAD || is304
-  let chunking := !bodyless && i.status != 204 && !hasCL2 && i.rq.proto11
-  let close6 := close5 || (!bodyless && i.status != 204 && !hasCL2 && !i.rq.proto11)
+  let noContent := i.status == 204 || is1xx
+  let chunking := !bodyless && !noContent && !hasCL2 && i.rq.proto11
+  let close6 := close5 || (!bodyless && !noContent && !hasCL2 && !i.rq.proto11)
   let h4 := if bodyless || chunking then h3 else h3.del "Transfer-Encoding"
   let setTE := if chunking then "chunked" else ""
   let h5 := if chunking then h4.del "Content-Length" else h4
@@ -686,7 +690,9 @@ def judge (isHead proto11 : Bool) (script : List Act) (close : Bool) (wres : Lis
         match missing with
         | [] => "ok"
         | (k, _) :: _ =>
-          if st == 304 && k == "Content-Type" then "FAIL:hdr-dropped-304-content-type"
+          -- a 1xx response has no representation a Content-Type could describe: dropping it is right
+          if st < 200 && (expectedEndToEnd script).all (fun kv => p.lines.contains kv || kv.1 == "Content-Type") then "ok"
+          else if st == 304 && k == "Content-Type" then "FAIL:hdr-dropped-304-content-type"
           else "FAIL:hdr-dropped"
 
 /-- SPEC for a backend response: as `judge`, with the backend's own end-to-end headers and body as the
